@@ -65,6 +65,34 @@ class Func:
         self.is_virtual = bool(node.get('virtual'))
 
     @property
+    def defaults(self):
+        """per parameter: the clang node of its default argument, or None (the default may stand on an earlier declaration of the
+        function - in the class - rather than on its definition)"""
+        if getattr(self, '_defaults', None) is None:
+            out = [None] * len(self.params)
+            node = self.node
+            for _ in range(4):
+                if node is None:
+                    break
+                pv = [c for c in node.get('inner', []) if c.get('kind') == 'ParmVarDecl']
+                for i, c in enumerate(pv[:len(out)]):
+                    sub = [x for x in c.get('inner', []) if 'Comment' not in x.get('kind', '') and 'Attr' not in x.get('kind', '')]
+                    if out[i] is None and 'init' in c and sub:
+                        out[i] = sub[-1]
+                node = self.tu.by_id.get(node.get('previousDecl')) if node.get('previousDecl') else None
+            self._defaults = out
+        return self._defaults
+
+    @property
+    def required(self):
+        """number of parameters without a default argument"""
+        d = self.defaults
+        n = len(d)
+        while n > 0 and d[n - 1] is not None:
+            n -= 1
+        return n
+
+    @property
     def raw_body(self):
         """the normalised body as written (calls to later-extracted helpers still in place)"""
         if self._raw is None:
